@@ -14,7 +14,8 @@ RULE = ('cases: ambiguous fragment sets over grammar base graphs under both matc
         'ignored under the label-insensitive convention), the edge order equals the annotated digit (1.5 only '
         'inside an aromatic ring), per base edge the number of bonds is <= its order (== for dedicated pairs, 0 '
         'for order 0), and the bonds can be explained by the descriptors written on the template atoms with no '
-        'descriptor used twice (exact assignment search). non-trivial = at least one inter-fragment bond and an '
+        'descriptor used twice (exact assignment search); for the dedicated-pair strings the two atoms are also '
+        'compared with the generator\'s own record of which atom was written with which descriptor. non-trivial = at least one inter-fragment bond and an '
         'ambiguous set (fragset) or >=2 cuts; distinct = string + convention')
 ASSUMPTIONS = ['templates are read through cgsmiles\' own fragment reader',
                'under legacy=False the rule ignores labels AND order digits (as compatible() implements: only the symbol kind counts)']
@@ -51,4 +52,19 @@ def oracle(case):
 
     def step(lv, cg, fine, templates, all_atom):
         total[0] += invariants.check_bonds(cg, fine, templates, case['legacy'], all_atom, case['dedicated'], 'level %d: ' % lv)
+        if all_atom and case.get('written_descriptors') is not None:
+            # independent of the fragment reader: the generator's record of which atom was WRITTEN with which descriptor
+            W = {(nm, pos): ds for nm, pos, ds in case['written_descriptors']}
+
+            def wr(n):
+                out = []
+                for nm, idx in fine.nodes[n].get('mapping', []) or []:
+                    out += W.get((nm, idx), [])
+                return out
+            for a, b, d in fine.edges(data=True):
+                if 'bonding' not in d:
+                    continue
+                l, r = d['bonding']
+                expect((l in wr(a) and r in wr(b)) or (l in wr(b) and r in wr(a)), 'bonds:atom-not-written-with-descriptor',
+                       lambda: 'level %d: bond %r-%r formed by %r/%r; the atoms were written with %r and %r' % (lv, a, b, l, r, wr(a), wr(b)))
     run_steps(case, step)
